@@ -207,18 +207,18 @@ def inversion_interferometer_from(
     -------
     An `Inversion` whose type is determined by the input `dataset` and `settings`.
     """
+    use_w_tilde = settings.use_w_tilde
+
     try:
         from autoarray.inversion.inversion import inversion_util_secret
     except ImportError:
-        settings.use_w_tilde = False
+        use_w_tilde = False
 
     if any(
         isinstance(linear_obj, AbstractLinearObjFuncList)
         for linear_obj in linear_obj_list
     ):
         use_w_tilde = False
-    else:
-        use_w_tilde = settings.use_w_tilde
 
     if not settings.use_linear_operators:
         if use_w_tilde:
